@@ -1093,18 +1093,23 @@ def oracle_elastic(case):
         exp = C * fR if u else C
         require(got.shape == (6, 6), lambda: '%s: Cij shape %r' % (what, got.shape))
         if cs == 'triclinic':
-            # no arithmetic besides the unit conversion
+            # no arithmetic besides the unit conversion; the Cij setter zeroes terms up to 1e-9 of the largest one (its clean-up,
+            # like Box's): a perturbation that small may come back as 0 (band of 10 % around the rung: either)
+            cleaned = (got == 0.0) & (np.abs(exp) <= 1.1e-9 * np.abs(exp).max())
+            if pt and bool((cleaned & (exp != 0.0)).any()):
+                labels.add('near_sym_cleaned')
             if u is None:
-                require(np.array_equal(got, exp), lambda: '%s: numbers differ, %s' % (what, worst(got, exp)))
+                require(bool(((got == exp) | cleaned).all()), lambda: '%s: numbers differ, %s' % (what, worst(got, exp)))
             else:
-                require(rel_ok(got, exp), lambda: '%s: physical value differs, %s' % (what, worst(got, exp)))
+                require(bool(((np.abs(got - exp) <= REL * np.abs(exp)) | cleaned).all()),
+                        lambda: '%s: physical value differs, %s' % (what, worst(got, exp)))
         else:
             # normalisation of a tensor that already has the symmetry: averages of equal entries, Hill averages through
             # one 6x6 inverse (isotropic): <= ~50 cond eps relative to the largest entry, cond <= ~20.
             # Off the symmetry by delta: every normalised entry is an average of entries (sum of the weights' magnitudes <= 3:
             # C12 = (c12 + c11 - 2 c66) / 2 of the hexagonal and rhombohedral settings, C66 = (C11 - C12) / 2), so the result is
             # within 3 delta of the symmetric tensor; the Hill average of the isotropic setting goes through the inverse
-            # (observed <= 2.2 delta over 20 000 tensors): 8 delta
+            # (observed: <= 1.5 delta for the averaging settings, <= 0.6 delta isotropic, 4 000 tensors): 8 delta
             exp0 = C0 * fR if u else C0
             tol = 1e-12 * np.abs(exp0).max() + (8.0 if cs == 'isotropic' else 3.0) * delta * (fR if u else 1.0)
             err = np.abs(got - exp0).max()
@@ -1116,26 +1121,403 @@ def oracle_elastic(case):
     return labels
 
 
+# ----------------------------------------------------------------------------- options (enumerated)
+
+def oracle_options(case):
+    labels = set(oracle_system(case))
+    sel = case['select']
+    units = {'pos': case['pos_unit']}
+    units.update({p['name']: p['unit'] for p in case['props']})
+    nsc = sum(1 for nme in sel if units.get(nme) == 'scaled')
+    labels.add('scaled_%d' % nsc)
+    labels.add('pos_selected' if 'pos' in sel else 'pos_absent')
+    if 'pos' not in sel and nsc:
+        labels.add('scaled_without_pos')
+    if nsc and 'pos' in sel and units['pos'] != 'scaled':
+        labels.add('scaled_prop_pos_with_unit')
+    if nsc >= 2:
+        first = [nme for nme in sel if units.get(nme) == 'scaled'][0]
+        labels.add('scaled_first_' + first)
+    labels.add('atype_first' if sel[0] == 'atype' else 'atype_last')
+    return labels
+
+
+# ----------------------------------------------------------------------------- history: ledger, caller-side mutation, unit plans
+
+def obj_bits(kind, obj):
+    if kind == 'value':
+        return tuple(bits(a) for a in obj if a is not None)
+    if kind == 'box':
+        return (bits(obj.vects), bits(obj.origin))
+    if kind == 'elastic':
+        return bits(obj.Cij)
+    return (bits(obj.box.vects), bits(obj.box.origin), bits(obj.pbc), tuple(obj.symbols), tuple(obj.masses),
+            tuple((k, bits(obj.atoms.view[k])) for k in obj.atoms.prop()))
+
+
+class Ledger:
+    """everything the caller was handed out - models and objects read back - with what it held when it was returned; judged
+    again, bit for bit, after every later call and every later change of anything else"""
+
+    def __init__(self):
+        self.dms, self.objs = [], []
+
+    def add_dm(self, m, expect, where):
+        self.dms.append({'m': m, 'text': jdump(m), 'expect': expect, 'where': where, 'tampered': False, 'stale': False})
+
+    def add_obj(self, kind, obj, where):
+        for e in self.objs:
+            if e['obj'] is obj:                     # an existing object that received another model: its new content counts
+                e.update(snap=obj_bits(kind, obj), where=where)
+                return
+        self.objs.append({'kind': kind, 'obj': obj, 'snap': obj_bits(kind, obj), 'where': where})
+
+    def refresh(self, e):
+        if 'm' in e:
+            e['text'] = jdump(e['m'])
+        else:
+            e['snap'] = obj_bits(e['kind'], e['obj'])
+
+    def verify(self, after, labels):
+        for e in self.dms:
+            require(jdump(e['m']) == e['text'], lambda: 'the model returned by %s changed after %s:\nwas  %s\nis   %s'
+                    % (e['where'], after, e['text'][:400], jdump(e['m'])[:400]))
+        for e in self.objs:
+            require(obj_bits(e['kind'], e['obj']) == e['snap'], lambda: 'the %s returned by %s changed after %s' % (e['kind'], e['where'], after))
+        if len(self.dms) + len(self.objs) >= 2:
+            labels.add('ledger')
+        if len(self.objs) >= 1 and len(self.dms) >= 1:
+            labels.add('ledger_mixed')
+
+
+_HIST_PTS = np.array([[0.25, 0.5, 0.75], [1.0, 0.0, -0.5]])
+
+
+class World:
+    """the caller's side of a history: arrays and atomman objects holding one of two sets of content each"""
+
+    def __init__(self, case, labels):
+        import atomman as am
+        self.am, self.case, self.labels = am, case, labels
+        self.j = {t: 0 for t in g.HIST_TYPES}
+        self.n = case['natoms']
+        self.truth = {}
+        for t in g.HIST_TYPES:
+            self.build(t)
+        fa = factor('angstrom')
+        self.recv_box = am.Box(vects=_PRIOR_V * fa, origin=_PRIOR_O * fa)
+        self.recv_box.reciprocal_vects
+        self.recv_ec = am.ElasticConstants(C11=1.0, C12=0.5, C44=0.3)
+
+    # content of dataset j of target t as working-unit numbers under the configuration active now
+    def content(self, t, j):
+        case, d = self.case, self.case['data'][j]
+        if t == 'value':
+            f = factor(case['vu']) if case['vu'] else 1.0
+            return {'val': np.array(d['val'], dtype=float) * f, 'err': np.array(d['err'], dtype=float) * f}
+        if t == 'elastic':
+            f = factor(case['eu']) if case['eu'] else 1.0
+            return {'C': np.array(d['Cij'], dtype=float) * f}
+        fa = factor('angstrom')
+        c = {'V': g.cell_vects10(d['cell']) * fa, 'o': gens.cell_origin(d['cell']) * fa}
+        if t == 'system':
+            c.update(rel=np.array(d['rel'], dtype=float), disp=np.array(d['disp'], dtype=float) * factor(case['du']),
+                     flag=np.array(d['flag'], dtype=np.int64))
+        return c
+
+    def build(self, t):
+        """new caller arrays and a new atomman object for target t from its current dataset"""
+        am, case, c = self.am, self.case, self.content(t, self.j[t])
+        if t == 'value':
+            self.val, self.err = c['val'].copy(), c['err'].copy()
+            self.truth[t] = {'val': self.val.copy(), 'err': self.err.copy()}
+        elif t == 'elastic':
+            self.C = c['C'].copy()
+            self.ec = am.ElasticConstants(Cij=self.C)
+            self.truth[t] = {'C': np.array(self.ec.Cij)}
+        elif t == 'box':
+            self.box = am.Box(vects=c['V'], origin=c['o'])
+            self.truth[t] = {'V': np.array(self.box.vects), 'o': np.array(self.box.origin)}
+        else:
+            box = am.Box(vects=c['V'], origin=c['o'])
+            Vw, ow = np.array(box.vects), np.array(box.origin)
+            self.pos, self.disp, self.flag = c['rel'] @ Vw + ow, c['disp'].copy(), c['flag'].copy()
+            self.atype = np.array(case['atype'], dtype=np.int64)
+            atoms = am.Atoms(atype=self.atype, pos=self.pos, disp=self.disp, flag=self.flag)
+            self.system = am.System(atoms=atoms, box=box, pbc=list(case['pbc']), symbols=list(case['symbols']), masses=list(case['masses']))
+            self.truth[t] = {'V': Vw, 'o': ow, 'pos': self.pos.copy(), 'disp': self.disp.copy(), 'flag': self.flag.copy(),
+                             'atype': self.atype.copy(), 'pbc': list(case['pbc'])}
+
+    def overwrite(self, t, v):
+        """the caller puts the other dataset into what it handed in: in place, through the setters"""
+        self.j[t] = 1 - self.j[t]
+        c, tr = self.content(t, self.j[t]), self.truth[t]
+        if t == 'value':
+            self.val[...] = c['val']
+            self.err[...] = c['err']
+            tr.update(val=self.val.copy(), err=self.err.copy())
+        elif t == 'elastic':
+            self.C[...] = c['C']
+            self.ec.Cij = self.C
+            tr.update(C=np.array(self.ec.Cij))
+        else:
+            box = self.box if t == 'box' else self.system.box
+            if v % 2:
+                box.set(vects=c['V'], origin=c['o'])
+            else:
+                box.vects = c['V']
+                box.origin = c['o']
+            tr.update(V=np.array(box.vects), o=np.array(box.origin))
+            if t == 'system':
+                view = self.system.atoms.view
+                newpos = c['rel'] @ tr['V'] + tr['o']
+                for key, arr, new in (('pos', self.pos, newpos), ('disp', self.disp, c['disp']), ('flag', self.flag, c['flag'])):
+                    arr[...] = new                  # the array handed in (Atoms may hold it itself: documented) ...
+                    view[key][...] = new            # ... and the object's own, so that the System holds the new content either way
+                newpbc = [not bool(q) for q in tr['pbc']] if v % 3 == 0 else tr['pbc']
+                self.system.pbc = newpbc
+                tr.update(pos=newpos.copy(), disp=c['disp'].copy(), flag=c['flag'].copy(), pbc=list(newpbc))
+
+    def check_inputs(self, after):
+        """what the caller handed in is bit for bit what it put there"""
+        tr = self.truth
+        ok = (bits(self.val) == bits(tr['value']['val']) and bits(self.err) == bits(tr['value']['err'])
+              and bits(self.ec.Cij) == bits(tr['elastic']['C'])
+              and bits(self.box.vects) == bits(tr['box']['V']) and bits(self.box.origin) == bits(tr['box']['o']))
+        require(ok, lambda: 'a value / error array, the Box or the ElasticConstants the caller holds changed after %s' % after)
+        ts, sy = tr['system'], self.system
+        ok = (bits(sy.box.vects) == bits(ts['V']) and bits(sy.box.origin) == bits(ts['o']) and np.asarray(sy.pbc).tolist() == ts['pbc']
+              and all(bits(sy.atoms.view[k]) == bits(ts[k]) for k in ('atype', 'pos', 'disp', 'flag'))
+              and all(bits(a) == bits(ts[k]) for k, a in (('pos', self.pos), ('disp', self.disp), ('flag', self.flag), ('atype', self.atype)))
+              and tuple(sy.symbols) == tuple(self.case['symbols']) and tuple(sy.masses) == tuple(float(x) for x in self.case['masses']))
+        require(ok, lambda: 'the System the caller holds (box, pbc, symbols, masses or a per-atom array) changed after %s' % after)
+
+    # ------------------------------------------------------------------ writing
+    def write(self, t, v):
+        """(model, expectation, description); the expectation holds numbers in the storage units, from own factors"""
+        import atomman.unitconvert as uc
+        case, tr = self.case, self.truth[t]
+        if t == 'value':
+            u, with_err = case['vu'], bool(v % 2)
+            m = uc.model(self.val, u, self.err) if with_err else uc.model(self.val, u)
+            f = factor(u) if u else 1.0
+            return m, {'t': t, 'u': u, 'x': tr['val'] / f if u else tr['val'].copy(), 'e': (tr['err'] / f if u else tr['err'].copy()) if with_err else None}, \
+                'uc.model(value%s, %r)' % (', error' if with_err else '', u)
+        if t == 'elastic':
+            u = case['eu']
+            m = self.ec.model(unit=u) if (u or v % 2) else self.ec.model()
+            return m, {'t': t, 'u': u, 'C': tr['C'] / factor(u) if u else tr['C'].copy()}, 'ElasticConstants.model(unit=%r)' % u
+        fa = factor('angstrom')
+        if t == 'box':
+            lu = ('angstrom', 'nm', 'm', 'aBohr')[v % 4]
+            m = self.box.model(length_unit=lu) if v % 8 else self.box.model()
+            lu = lu if v % 8 else 'angstrom'
+            return m, {'t': t, 'V': tr['V'] / fa, 'o': tr['o'] / fa}, 'Box.model(length_unit=%r)' % lu
+        pu = (None, 'scaled', 'nm', 'scaled', 'angstrom', 'm')[v % 6]
+        du = case['du'] if (v // 6) % 2 == 0 else None
+        bu = None if (v // 12) % 2 == 0 else 'nm'
+        umap = {'atype': None, 'pos': pu, 'disp': du, 'flag': None}
+        order = (['atype', 'pos', 'disp', 'flag'], ['disp', 'flag', 'pos', 'atype'])[v % 2]
+        if v % 4 < 2:
+            kw = {'prop_unit': {k: umap[k] for k in order}}
+        else:
+            kw = {'prop_name': list(order), 'unit': [umap[k] for k in order]}
+        if bu:
+            kw['box_unit'] = bu
+        m = self.system.dump('system_model', **kw) if v % 3 == 0 else self.system.model(**kw)
+        s = own_rel(tr['pos'], tr['V'], tr['o'])
+        tol_s, tol_x = scaled_tols(tr['V'], tr['o'], max(1.0, float(np.abs(s).max())))
+        if pu == 'scaled':
+            pm = [q for q in m['atomic-system']['atoms'].aslist('property') if q['name'] == 'pos'][0]
+            st_ = np.asarray(pm['data']['value'], dtype=float)
+            require(pm['data'].get('unit') == 'scaled' and st_.size == s.size and float(np.abs(st_.reshape(s.shape) - s).max()) <= tol_s,
+                    lambda: 'System.model: pos stored as %r (unit %r), box-relative coordinates are %r (tol %.3g)'
+                    % (st_.tolist(), pm['data'].get('unit'), s.tolist(), tol_s))
+            self.labels.add('w_scaled')
+        exp = {'t': t, 'V': tr['V'] / fa, 'o': tr['o'] / fa, 'pos': tr['pos'] / fa, 'tol_pos': tol_x / fa if pu == 'scaled' else None,
+               'du': du, 'disp': tr['disp'] / factor(du) if du else tr['disp'].copy(), 'flag': tr['flag'].copy(), 'atype': tr['atype'].copy(),
+               'pbc': list(tr['pbc'])}
+        return m, exp, 'System.%s(%s)' % ('dump' if v % 3 == 0 else 'model', ', '.join('%s=%r' % kv for kv in sorted(kw.items())))
+
+    # ------------------------------------------------------------------ reading
+    def read(self, e, enc, v, tag):
+        """read the model of ledger entry e under the configuration active now, judge it, return (kind, object)"""
+        import atomman.unitconvert as uc
+        from DataModelDict import DataModelDict as DM
+        am, case, x, t = self.am, self.case, e['expect'], e['expect']['t']
+        what = '%s read %s via %s' % (e['where'], tag, enc)
+        fr = factor('angstrom')
+        if t == 'value':
+            payload = encode(DM([('quantity', e['m'])]), enc, what)
+            term = e['m'] if enc == 'dict' else DM(payload)['quantity']
+            f = factor(x['u']) if x['u'] else 1.0
+            got = uc.value_unit(term)
+            shape = x['x'].shape
+            len1 = enc == 'xml' and shape == (1,)
+            check_array(what, got, shape, 'f', x['x'] * f, exact=x['u'] is None, xml_len1=len1)
+            ge = None
+            if x['e'] is not None:
+                ge = uc.error_unit(term)
+                check_array(what + ' [error]', ge, shape, 'f', x['e'] * f, exact=x['u'] is None, xml_len1=len1)
+            return 'value', (got, ge)
+        payload = encode(e['m'], enc, what)
+        if t == 'elastic':
+            if v % 2:
+                ec2 = self.recv_ec
+                ec2.model(model=payload)
+                self.labels.add('recv_existing')
+            else:
+                ec2 = am.ElasticConstants(model=payload)
+            got, exp = np.asarray(ec2.Cij, dtype=float), x['C'] * (factor(x['u']) if x['u'] else 1.0)
+            if x['u'] is None:
+                require(np.array_equal(got, exp), lambda: '%s: numbers differ, %s' % (what, worst(got, exp)))
+            else:
+                require(rel_ok(got, exp), lambda: '%s: physical value differs, %s' % (what, worst(got, exp)))
+            return 'elastic', ec2
+        if t == 'box':
+            if v % 2:
+                B2 = self.recv_box
+                B2.model(model=payload)
+                self.labels.add('recv_existing')
+            else:
+                B2 = am.Box(model=payload)
+            check_box(what, B2, x['V'] * fr, x['o'] * fr)
+            check_derived(what, B2, _HIST_PTS, ('recip', 'c2r'))
+            return 'box', B2
+        s2 = am.load('system_model', payload) if v % 3 == 1 else am.System(model=payload)
+        n = self.n
+        check_box(what, s2.box, x['V'] * fr, x['o'] * fr)
+        pbc = np.asarray(s2.pbc)
+        require(pbc.dtype == bool and pbc.tolist() == x['pbc'], lambda: '%s: pbc %r read back as %r' % (what, x['pbc'], s2.pbc))
+        require(tuple(s2.symbols) == tuple(case['symbols']), lambda: '%s: symbols %r read back as %r' % (what, case['symbols'], s2.symbols))
+        require(tuple(s2.masses) == tuple(float(q) for q in case['masses']), lambda: '%s: masses %r read back as %r' % (what, case['masses'], s2.masses))
+        require(s2.natoms == n and set(s2.atoms.prop()) == {'atype', 'pos', 'disp', 'flag'},
+                lambda: '%s: natoms %r, properties %r' % (what, s2.natoms, s2.atoms.prop()))
+        check_array(what + ' atype', s2.atoms.view['atype'], (n,), 'i', x['atype'], exact=True)
+        check_array(what + ' flag', s2.atoms.view['flag'], (n,), 'i', x['flag'], exact=True)
+        check_array(what + ' pos', s2.atoms.view['pos'], (n, 3), 'f', x['pos'] * fr, exact=False,
+                    tol=None if x['tol_pos'] is None else x['tol_pos'] * fr)
+        if x['du']:
+            check_array(what + ' disp (unit %r)' % x['du'], s2.atoms.view['disp'], (n, 3), 'f', x['disp'] * factor(x['du']), exact=False)
+        else:
+            check_array(what + ' disp (no unit)', s2.atoms.view['disp'], (n, 3), 'f', x['disp'], exact=True)
+        return 'system', s2
+
+
+def spoil(kind, obj, v):
+    """the caller overwrites in place / through the setters an object it was handed out"""
+    if kind == 'value':
+        return any([overwrite(a) for a in obj if a is not None])
+    if kind == 'elastic':
+        obj.Cij = np.identity(6) * (3.0 + v)
+    elif kind == 'box':
+        obj.origin = obj.origin + (1.0 + v)
+        obj.vects = _PRIOR_V * (2.0 + v)
+    else:
+        for k in obj.atoms.prop():
+            overwrite(obj.atoms.view[k]) if k != 'atype' else None
+        obj.box.origin = obj.box.origin - (1.0 + v)
+        obj.pbc = [not bool(q) for q in obj.pbc]
+    return True
+
+
+def oracle_history(case):
+    labels = set()
+    led = Ledger()
+    try:
+        apply_cfg(case['cfg0'])
+        cfg_now, ncfg = jdump(case['cfg0']), 0
+        world = World(case, labels)
+        for i, st_ in enumerate(case['steps']):
+            op = st_['op']
+            tag = 'step %d (%s)' % (i, op)
+            if op == 'cfg':
+                apply_cfg(st_['cfg'])
+                if jdump(st_['cfg']) != cfg_now:
+                    cfg_now, ncfg = jdump(st_['cfg']), ncfg + 1
+                    labels.add('reset_units')
+                if st_['rebuild']:
+                    # the caller re-expresses what it holds in the new working units (own factors), in new objects
+                    for t in g.HIST_TYPES:
+                        world.build(t)
+                    labels.add('rebuild')
+            elif op == 'w':
+                m, exp, where = world.write(st_['t'], st_['v'])
+                led.add_dm(m, exp, '%s at step %d' % (where, i))
+                led.dms[-1]['cfg'] = cfg_now
+                labels.add('w_' + st_['t'])
+            elif op == 'r':
+                live = [e for e in led.dms if not e['tampered']]
+                if not live:
+                    labels.add('nothing_to_read')
+                    continue
+                e = live[st_['k'] % len(live)]
+                kind, obj = world.read(e, st_['enc'], st_['v'], 'at step %d' % i)
+                led.add_obj(kind, obj, '%s, read at step %d' % (e['where'], i))
+                labels.add('r_' + kind)
+                if e['cfg'] != cfg_now:
+                    labels.add('read_after_reset')
+                if e['stale']:
+                    labels.add('read_after_caller_in')
+            elif op == 'min':
+                world.overwrite(st_['t'], st_['v'])
+                for e in led.dms:
+                    if e['expect']['t'] == st_['t']:
+                        e['stale'] = True               # what it was written from no longer exists: the model must still say the same
+                labels.add('caller_in')
+            else:
+                every = led.objs if (led.objs and st_['v'] % 2) else led.dms + led.objs
+                if not every:
+                    labels.add('nothing_to_spoil')
+                    continue
+                e = every[st_['k'] % len(every)]
+                if 'm' in e:
+                    if scramble_model(e['m']):
+                        e['tampered'] = True
+                        labels.add('caller_out_model')
+                else:
+                    if spoil(e['kind'], e['obj'], st_['v'] % 3):
+                        labels.add('caller_out_object')
+                led.refresh(e)
+            led.verify(tag, labels)
+            world.check_inputs(tag)
+        # in the end every model still in the caller's hands is read once more (new objects), under the configuration active now
+        for e in led.dms:
+            if not e['tampered']:
+                world.read(e, 'dict', 0, 'at the end')
+                if e['cfg'] != cfg_now:
+                    labels.add('read_after_reset')
+                if e['stale']:
+                    labels.add('read_after_caller_in')
+        led.verify('the final readings', labels)
+        world.check_inputs('the final readings')
+    finally:
+        restore_units()
+    if 'ledger' in labels and labels & {'caller_in', 'caller_out_model', 'caller_out_object', 'read_after_reset'}:
+        labels.add('nt')
+    return labels
+
+
 CLAUSES = [
-    Clause('value', oracle_value, g.value_cases, quick=14000, thorough=180000,
+    Clause('value', oracle_value, g.value_cases, quick=12000, thorough=180000,
            min_share={'nt': 0.3, 'cfg_differ': 0.2, 'enc_xml': 0.15, 'enc_json': 0.15, 'rank3': 0.08, 'rank4': 0.06, 'unit': 0.2,
                       'error': 0.08, 'kind_i': 0.08, 'nonC': 0.15, 'nonC_nonF': 0.04, 'lay_T': 0.07, 'lay_F': 0.06, 'lay_S': 0.02,
                       'lay_SF': 0.02, 'lay_X': 0.015, 'error_nonC': 0.03},
            desc='uc.model -> (dict | JSON | XML) -> uc.value_unit / error_unit: shape, dtype kind, physical value; write and read '
                 'under different working units; value and error arrays in C / transposed / Fortran / axis-swapped / strided layouts'),
-    Clause('box', oracle_box, g.box_cases, quick=4000, thorough=50000,
+    Clause('box', oracle_box, g.box_cases, quick=3500, thorough=50000,
            min_share={'nt': 0.2, 'cfg_differ': 0.3, 'origin': 0.2, 'rotated': 0.2, 'fresh': 0.15, 'prior_used': 0.2,
                       'prior_cell_differs': 0.25, 'prior_recip': 0.1, 'prior_c2r': 0.1, 'prior_scaled': 0.05, 'in_system': 0.1,
                       'prior_unused': 0.04},
            desc='Box.model(length_unit) -> Box(model=) / Box.model(model=) into a Box (alone or held by a System) that had another '
                 'cell and whose reciprocal vectors / position maps / box-scaled storage were used: cell and origin as physical '
                 'lengths, then reciprocal vectors, both position maps and a box-scaled System.model against own arithmetic'),
-    Clause('atoms', oracle_atoms, g.atoms_cases, quick=8000, thorough=100000,
+    Clause('atoms', oracle_atoms, g.atoms_cases, quick=6500, thorough=100000,
            min_share={'nt': 0.25, 'natoms1': 0.08, 'prop_s': 0.12, 'prop_i': 0.1, 'proprank3': 0.12, 'unit_prop': 0.12, 'subset': 0.05,
                       'nonC': 0.3, 'pos_nonC': 0.2, 'prop_nonC': 0.18, 'prop_nonC_nounit': 0.1, 'nonC_nonF': 0.12, 'lay_T': 0.15,
                       'lay_F': 0.13, 'lay_S': 0.06, 'lay_SF': 0.06, 'lay_X': 0.07},
            desc='Atoms.model(prop_name/unit | prop_unit | defaults) -> Atoms(model=): every listed property, shapes, dtype kinds, units'),
-    Clause('system', oracle_system, g.system_cases, quick=16000, thorough=220000,
+    Clause('system', oracle_system, g.system_cases, quick=12500, thorough=220000,
            min_share={'nt': 0.25, 'pos_scaled': 0.1, 'scaled_prop': 0.06, 'mass_first_none': 0.04, 'symbols_holes': 0.08,
                       'masses_holes': 0.1, 'route_dump': 0.15, 'route_model': 0.15, 'route_dump_f': 0.04, 'route_dump_path': 0.03,
                       'enc_xml': 0.15, 'cfg_differ': 0.15, 'natoms1': 0.07, 'proprank3': 0.12, 'prop_s': 0.1,
@@ -1143,8 +1525,17 @@ CLAUSES = [
                       'lay_F': 0.13, 'lay_S': 0.07, 'lay_SF': 0.08, 'lay_X': 0.1},
            desc='System.model/System(model=) and dump/load system_model (text, stream, path): cell, origin, pbc, symbols, masses, '
                 'every property incl. box-scaled storage, written and read under different working units'),
-    Clause('elastic', oracle_elastic, g.elastic_cases, quick=4000, thorough=50000,
+    Clause('elastic', oracle_elastic, g.elastic_cases, quick=3500, thorough=50000,
            min_share={'nt': 0.35, 'unit': 0.25, 'cfg_differ': 0.3, 'norm_family': 0.25, 'fam_isotropic': 0.05, 'fam_rhombohedral': 0.05,
                       'fam_triclinic': 0.05},
            desc='ElasticConstants.model(unit, crystal_system) -> ElasticConstants(model=) / .model(model=)'),
+    Clause('history', oracle_history, g.history_cases, quick=2000, thorough=40000,
+           min_share={},
+           desc='one caller, one process: models of a value, a Box, a System and an ElasticConstants written, read back (new objects and '
+                'existing ones), reset_units in between, the caller overwriting what it handed in and what it was handed out; every '
+                'model and object handed out is judged again bit for bit after every later step, every input after every call'),
+    Clause('options', oracle_options, enumerate=g.option_cases, quick=5000, thorough=50000,
+           min_share={},
+           desc='enumerated: every combination and order of position unit (absent / None / angstrom / nm / scaled), two vector '
+                'properties (absent / unit / scaled), prop_unit or prop_name+unit, box_unit, route and encoding on one tilted system'),
 ]
